@@ -609,8 +609,49 @@ def orm_fields_once(prog: Program) -> RuleResult:
     return r
 
 
+def orm_id_memo(prog: Program) -> RuleResult:
+    """'Generation is deterministic' over every generation in a process: what one generation remembers must not be readable by the next.  A
+    module-level (or class-level) collection keyed by `id(obj)` outlives the objects whose ids it holds; CPython hands a freed address to the
+    next object, and a table of a later generation is taken for one that 'was parsed already' - its DAO comes out without columns.  State
+    about an object is kept on the object (or keyed by the object itself)."""
+    r = RuleResult("ORM-ID-MEMO", "nothing in the generator remembers objects by id() beyond their lifetime", floor=1)
+    n = 0
+    for m in sorted(prog.modules.values(), key=lambda x: x.name):
+        if ".ormatic." not in m.name and not m.name.endswith(".ormatic"):
+            continue
+        n += 1
+        shared = {t.id for st in m.tree.body if isinstance(st, (ast.Assign, ast.AnnAssign)) for t in ([st.target] if isinstance(st, ast.AnnAssign) else st.targets) if isinstance(t, ast.Name)}
+        for c in [c for c in prog.classes.values() if c.module is m]:
+            shared |= {a for a, fi in c.attrs.items() if fi.value is not None and not c.is_dataclass}
+        bad = None
+        for f in [f for f in prog.functions.values() if f.module is m]:
+            for x in walk_local(f.node):
+                key = None
+                if isinstance(x, ast.Call) and isinstance(x.func, ast.Attribute) and x.func.attr in ("add", "append", "setdefault") and x.args:
+                    key, holder = x.args[0], x.func.value
+                elif isinstance(x, ast.Subscript) and isinstance(x.ctx, ast.Store):
+                    key, holder = x.slice, x.value
+                elif isinstance(x, ast.Compare) and len(x.ops) == 1 and isinstance(x.ops[0], (ast.In, ast.NotIn)):
+                    key, holder = x.left, x.comparators[0]
+                if key is None:
+                    continue
+                by_id = any(isinstance(y, ast.Call) and isinstance(y.func, ast.Name) and y.func.id == "id" for y in ast.walk(key))
+                root = holder
+                while isinstance(root, ast.Attribute):
+                    root = root.value
+                is_shared = (isinstance(holder, ast.Name) and holder.id in shared) or (isinstance(holder, ast.Attribute) and isinstance(root, ast.Name) and root.id in ("cls",) + tuple(c.name for c in prog.classes.values() if c.module is m))
+                if by_id and is_shared:
+                    bad = bad or (f, x)
+        r.check(bad is None, f"{m.name.split('.')[-1]}#no-id-keyed-shared-memo", site(bad[0], bad[1]) if bad else m.relpath, src(bad[1])[:80] if bad else "", "no shared collection is keyed by id()",
+                f"`{src(bad[1])[:70] if bad else ''}` ({bad[0].short if bad else ''}) keys a collection that outlives the object by the object's id(): an object of a later generation that is allocated at "
+                "a freed address is taken for the earlier one (a table 'parsed already' is written without its columns, in some later generation of the process)")
+    if n < 1:
+        raise AnalysisError("ORM-ID-MEMO: no module of the generator found")
+    return r
+
+
 def run(prog: Program, tier: str) -> List[RuleResult]:
     # the generator reads every field through its resolved annotation: an unresolved forward reference is no class to map
     from .c17 import wf_resolved
 
-    return [guard(lambda: wf_table(prog)), guard(lambda: orm_dispatch(prog)), guard(lambda: orm_imports(prog)), guard(lambda: orm_names(prog)), guard(lambda: orm_determinism(prog)), guard(lambda: orm_memo(prog)), guard(lambda: wf_resolved(prog)), guard(lambda: orm_order(prog)), guard(lambda: orm_fields_once(prog))]
+    return [guard(lambda: wf_table(prog)), guard(lambda: orm_dispatch(prog)), guard(lambda: orm_imports(prog)), guard(lambda: orm_names(prog)), guard(lambda: orm_determinism(prog)), guard(lambda: orm_memo(prog)), guard(lambda: wf_resolved(prog)), guard(lambda: orm_order(prog)), guard(lambda: orm_fields_once(prog)), guard(lambda: orm_id_memo(prog))]
